@@ -2,6 +2,7 @@ SPECIFICATION Spec
 CONSTANTS
   Base = {"a", "A", "0", ".", "-", "_", ":", "/", "@", "[", "]", "!"}
   MaxFlat = 4
+  FullLen = 4
   MaxMacroFlat = 2
   PartsLevel = 1
 INVARIANT MCLaws
